@@ -644,6 +644,18 @@ func typedNil(c *core.Ctx) {
 					return true, "dominated by a != nil test"
 				}
 			}
+		}
+		// a field of a local struct (`setup.failed`): another load of the same field of the same struct
+		// value was tested != nil on a dominating branch, and nothing in the region that branch dominates
+		// stores to the field or hands the struct to a call
+		if load, ok := v.(*ssa.UnOp); ok && load.Op == token.MUL {
+			if fa, ok := load.X.(*ssa.FieldAddr); ok {
+				if ok2, why := fieldGuarded(fa, at); ok2 {
+					return true, why
+				}
+			}
+		}
+		if refs := v.Referrers(); refs != nil {
 			// the same test behind a predicate helper: `func isSet(e *Error) bool { return e != nil }`
 			for _, ref := range *refs {
 				call, ok := ref.(*ssa.Call)
@@ -796,6 +808,83 @@ func isNilTestOf(bo *ssa.BinOp, param *ssa.Parameter) bool {
 	}
 	cst, ok := other.(*ssa.Const)
 	return ok && cst.IsNil()
+}
+
+// fieldGuarded: some load of field fa.Field of the struct fa.X is compared with nil, the non-nil branch
+// dominates `at`, and in the blocks that branch dominates no instruction stores to that field of that
+// struct or passes the struct itself to a call.
+func fieldGuarded(fa *ssa.FieldAddr, at *ssa.BasicBlock) (bool, string) {
+	base := fa.X
+	refs := base.Referrers()
+	if refs == nil {
+		return false, ""
+	}
+	for _, ref := range *refs {
+		other, ok := ref.(*ssa.FieldAddr)
+		if !ok || other.Field != fa.Field || other.Referrers() == nil {
+			continue
+		}
+		for _, r2 := range *other.Referrers() {
+			ld, ok := r2.(*ssa.UnOp)
+			if !ok || ld.Op != token.MUL || ld.Referrers() == nil {
+				continue
+			}
+			for _, r3 := range *ld.Referrers() {
+				bo, ok := r3.(*ssa.BinOp)
+				if !ok || (bo.Op != token.NEQ && bo.Op != token.EQL) {
+					continue
+				}
+				var o ssa.Value = bo.Y
+				if bo.Y == ssa.Value(ld) {
+					o = bo.X
+				}
+				if cst, isC := o.(*ssa.Const); !isC || !cst.IsNil() {
+					continue
+				}
+				// the guarded successor
+				for _, ur := range *bo.Referrers() {
+					ifi, ok := ur.(*ssa.If)
+					if !ok {
+						continue
+					}
+					succ := ifi.Block().Succs[0]
+					if bo.Op == token.EQL {
+						succ = ifi.Block().Succs[1]
+					}
+					if len(succ.Preds) != 1 || !succ.Dominates(at) {
+						continue
+					}
+					clean := true
+					for _, b := range succ.Parent().Blocks {
+						if !succ.Dominates(b) {
+							continue
+						}
+						for _, ins := range b.Instrs {
+							switch x := ins.(type) {
+							case *ssa.Store:
+								if sfa, ok := x.Addr.(*ssa.FieldAddr); ok && sfa.X == base && sfa.Field == fa.Field {
+									clean = false
+								}
+							case ssa.CallInstruction:
+								for _, a := range x.Common().Args {
+									if a == base {
+										clean = false
+									}
+								}
+								if x.Common().IsInvoke() && x.Common().Value == base {
+									clean = false
+								}
+							}
+						}
+					}
+					if clean {
+						return true, "field tested != nil on a dominating branch, not written since"
+					}
+				}
+			}
+		}
+	}
+	return false, ""
 }
 
 // defersRecover: some deferred call of f (a static callee or a function literal) calls recover.
